@@ -48,6 +48,16 @@ func (m *Machine) enqueue(i int, how string) {
 	m.Raised[how+"/"+m.evs[i].Kind]++
 }
 
+// RaiseNow is the host raising a request between two calls.
+func (m *Machine) RaiseNow(e Event, how string) {
+	m.queue = append(m.queue, e.Request())
+	m.Raised[how+"/"+e.Kind]++
+	m.present()
+}
+
+// QueueLen returns the number of raised, not yet presented requests.
+func (m *Machine) QueueLen() int { return len(m.queue) }
+
 // present puts the head of the queue into the CPU's request slot if it is
 // free (NMI first). It never overwrites a request.
 func (m *Machine) present() {
